@@ -43,6 +43,13 @@ def run(chk, tier, rng):
     for i in range(n):
         sc = l1.gen_scenario(rng)
         one(chk, sc, i)
+    # the flags that decide whether an exhausted file counts as failed are set where the queue entries are built (repository
+    # layer): whole runs in which an optional file (dist-upgrader) is there but cannot be transferred must count it as failed
+    # (shared with C02: exit status, nothing published, nothing deleted)
+    from . import c02
+    for i in range(8 if tier == "quick" else 100):
+        c02.run_one(chk, f"C05e-{chk.seed}-{i}", "dist-upgrader-broken")
+        chk.count("whole_runs_with_an_untransferable_optional_file")
     if tier == "thorough":
         exhaustive(chk, rng)
     chk.assumptions += [
@@ -99,6 +106,9 @@ def exhaustive(chk, rng):
 
 
 def replay(rep):
+    if "class" in rep["replay"] and "scenario_seed" in rep["replay"]:
+        from . import c02
+        return c02.replay(rep)
     sc = l1.scenario_from_json(rep["replay"].get("scenario", rep["replay"]))
     real, files = l1.run_real(sc)
     viol = l1.monitor_c05(sc, real, files)
